@@ -217,7 +217,7 @@ pub fn run_sched(cfg: &SchedCfg) -> RunStat {
     let (ctl2, cur2, abort2) = (ctl.clone(), cur.clone(), abort.clone());
     let seed = cfg.seed.wrapping_add(tid as u64 * 104729);
     let rounds = cfg.rounds;
-    joins.push(ctl.spawn(tid, gen_, move || worker(tid, lk, rounds, seed, ctl2, cur2, abort2)));
+    joins.push(ctl.spawn(tid, gen_, move || { hist::join(gen_); worker(tid, lk, rounds, seed, ctl2, cur2, abort2) }));
   }
   let outcome = ctl.run(Duration::from_secs(30));
   for (t, msg) in &outcome.panics {
